@@ -1,5 +1,6 @@
 import RedisVerif.Model.Resp
 import RedisVerif.Lemmas.Resp
+import RedisVerif.Lemmas.Conn
 
 /-
   C15 — RESP decoding is total, bounded, prefix-stable; replies re-decode to themselves.
@@ -100,6 +101,24 @@ theorem array_len_pinned_counterexample :
     (parseG codec1Pinned env0 arrayBillion).out = .crash .allocAbort ∧
     (parseG codec1Pinned env0 arrayBillion).allocs = [40000000000] := ⟨rfl, rfl, rfl, rfl⟩
 
+/-- a first byte that is none of the five RESP2 type bytes `+ - : $ *` — every RESP3 type byte
+    (`_ # , ( ! = % ~ > |`), every letter of an inline command (`PING\r\n`), every control byte — is a
+    protocol error decided at that byte, whatever follows, in both decoders: neither RESP3 nor inline
+    commands are accepted anywhere in the tree -/
+theorem non_resp2_type_byte_is_error (c : Codec) (env : Env) (hd : 1 ≤ env.depth) (t : Nat) (rest : Bytes)
+    (ht : t ≠ 43 ∧ t ≠ 45 ∧ t ≠ 58 ∧ t ≠ 36 ∧ t ≠ 42) :
+    parseG c env (t :: rest) = ⟨.error .unknownType, []⟩ := by
+  unfold parseG
+  cases h : env.depth with
+  | zero => omega
+  | succ d =>
+    unfold parseD
+    simp only [ht.1, ht.2.1, ht.2.2.1, ht.2.2.2.1, ht.2.2.2.2, if_false]
+
+example : (parse1 env0 [80, 73, 78, 71, 13, 10]).out = .error .unknownType ∧
+    (parse2 env0 [95, 13, 10]).out = .error .unknownType ∧ (parse1 env0 [35, 116, 13, 10]).out = .error .unknownType :=
+  ⟨rfl, rfl, rfl⟩
+
 /-! ## 2. recursion depth -/
 
 /-- full statement: some stack depth is enough for every input, of whatever size -/
@@ -110,6 +129,31 @@ def C15_depth_bounded (c : Codec) : Prop :=
 theorem depth_bounded (c : Codec) (h : c = codec1 ∨ c = codec2) : C15_depth_bounded c := by
   obtain ⟨_, hf, _, _⟩ := good_of c h
   exact ⟨maxNesting + 1, fun mem bs _ => parseD_noSO c maxNesting hf.nest mem (maxNesting + 1) 0 bs (Nat.zero_le _) (by omega)⟩
+
+/-- THE BOUND AS A THEOREM OVER THE DEPTH PARAMETER: for ANY decoder of the family and ANY value `m` of
+    its `MAX_NESTING_DEPTH`, `m + 1` stack frames are enough for every input (the constant of the
+    source, 32, is read from resp.rs by ./check and compared with the value the other theorems assume) -/
+theorem depth_bounded_param (c : Codec) (m : Nat) (hm : c.maxNest = some m) (mem : Nat) (bs : Bytes) :
+    (parseD c mem (m + 1) 0 bs).out ≠ .crash .stackOverflow :=
+  parseD_noSO c m hm mem (m + 1) 0 bs (Nat.zero_le _) (by omega)
+
+/-- … and no panic / abort of any kind with that many frames, for every value of the parameter -/
+theorem no_crash_param (c : Codec) (hg : c.Good) (m : Nat) (hf : c.Fixed m) (env : Env) (hd : m + 1 ≤ env.depth)
+    (bs : Bytes) (hs : Small bs) : (parseG c env bs).out.isCrash = false :=
+  parseD_no_crash c hg m hf env.mem env.depth 0 bs (Nat.zero_le _) (by omega) hs
+
+/-- non-vacuity: both repaired decoders are members of the family with `m = 32`, and so is a
+    hypothetical decoder with another limit -/
+example : codec1.maxNest = some 32 ∧ codec2.maxNest = some 32 ∧ codec1.Good ∧ codec1.Fixed 32 ∧ codec2.Fixed 32 ∧
+    ({ codec1 with maxNest := some 7 } : Codec).Fixed 7 ∧ codec1.CapSane ∧ codec2.CapSane :=
+  ⟨rfl, rfl, codec1_good, codec1_fixed, codec2_fixed, ⟨rfl, fun _ => ⟨rfl, rfl⟩, rfl⟩, fun _ => rfl,
+    fun h => by simp [codec2] at h⟩
+
+set_option maxRecDepth 8000 in
+/-- the limit is tight for the constant of the source: 32 nested arrays need the 33rd frame -/
+example : (parseD codec1 41 32 0 (nested 32)).out.crashKind = some .stackOverflow ∧
+    (parseD codec2 41 32 0 (nested 32)).out.crashKind = some .stackOverflow ∧
+    (parseD codec1 41 33 0 (nested 32)).out.isOk = true := by decide
 
 /-- PINNED behaviour (before fix 468f0b7): whatever the stack size, `depth` nested arrays overflow it -/
 theorem stack_overflow_pinned (c : Codec) (h : c = codec1Pinned ∨ c = codec2Pinned) (mem : Nat) (hm : 40 < mem) :
@@ -198,6 +242,17 @@ theorem alloc_ok_bounded (c : Codec) (h : c = codec1 ∨ c = codec2) (env : Env)
   have : (3 + pf c) * k ≤ 43 * k := Nat.mul_le_mul_right _ (by omega)
   unfold Res.alloc parseG
   omega
+
+/-- THE ALLOCATION BOUND IN TERMS OF THE INPUT LENGTH, for every decoder of the family and every value
+    `m` of the nesting limit: at most `3 + 40·m` bytes requested per input byte, whatever the outcome
+    (the pre-allocation must be capped by the input — `capPrealloc` — wherever there is one) -/
+theorem alloc_bounded_param (c : Codec) (hg : c.Good) (hcs : c.CapSane) (hcap : c.prealloc = true → c.capPrealloc = true)
+    (m : Nat) (hm : c.maxNest = some m) (env : Env) (bs : Bytes) (hs : Small bs) :
+    (parseG c env bs).alloc ≤ (3 + 40 * m) * bs.length := by
+  have := parseD_alloc_lenN c hg hcs hcap m hm env.mem env.depth 0 bs (Nat.zero_le _) hs
+  unfold KN at this
+  unfold Res.alloc parseG
+  simpa using this
 
 /-- PINNED behaviour (before fix e863343): 13 bytes `*1000000000\r\n` requested 40 GB -/
 theorem alloc_pinned_counterexample : ¬ C15_alloc_bounded codec1Pinned := by
@@ -383,8 +438,38 @@ theorem encode4_decode (c : Codec) (h : c = codec1 ∨ c = codec2) : C15_encode_
 /-- all the server's encoders produce the same bytes: `RespCodec::encode` (1), `RespParser::encode`
     (2), the connection handler's private `encode_resp_into` (3, its own transcription
     `encodeConnS`), the simulated connection's `encode_resp` (4) -/
-theorem encoders_agree (v : Val) : encode1 v = encode2 v ∧ encode3 v = encode2 v ∧ encode4 v = encode2 v :=
-  ⟨encode1_eq v, encode3_eq v, encode4_eq v⟩
+theorem encoders_agree (v : Val) : encode1 v = encode2 v ∧ encode3 v = encode2 v ∧ encode4 v = encode2 v ∧
+    encode5 v = encode2 v :=
+  ⟨encode1_eq v, encode3_eq v, encode4_eq v, encode5_eq v⟩
+
+/-- encoder 5 (`encode_resp_into` of the binary server_persistent.rs) -/
+theorem encode5_decode (c : Codec) (h : c = codec1 ∨ c = codec2) : C15_encode_decode encode5 c := by
+  intro env v rest hw hd ha hs
+  rw [encode5_eq] at hs ⊢
+  exact encode2_decode c h env v rest hw hd ha hs
+
+/-- `encode_error_into` of server_persistent.rs: one error frame `ERR ` ++ text -/
+theorem encode_error5_decode (c : Codec) (h : c = codec1 ∨ c = codec2) (env : Env) (msg rest : Bytes)
+    (hw : (Val.error ([69, 82, 82, 32] ++ msg)).wf c = true) (hd : 1 ≤ env.depth) (hs : Small (encodeErr5 msg ++ rest)) :
+    (parseG c env (encodeErr5 msg ++ rest)).out = .ok (Val.error ([69, 82, 82, 32] ++ msg)).san (encodeErr5 msg).length := by
+  rw [encodeErr5_eq] at hs ⊢
+  exact encode2_decode c h env _ rest hw (by simpa [Val.depth] using hd) (by simp [Val.arr]) hs
+
+example : (Val.error ([69, 82, 82, 32] ++ [120, 13, 10, 121])).wf codec2 = true ∧
+    (parse2 env0 (encodeErr5 [120, 13, 10, 121])).out = .ok (.error [69, 82, 82, 32, 120, 32, 32, 121]) 11 := ⟨by decide, rfl⟩
+
+/-- encoder 6, the CLIENT side (`SimulatedReadBuffer::encode_command`, and every client that writes a
+    command as an array of bulk strings): the frame `encCmd args` decodes — under RespCodec, on a
+    machine with two decoder frames, whatever follows — to exactly the array of its arguments, any
+    bytes in them (CR LF, NUL, non-UTF-8), consuming exactly its own length -/
+theorem command_frame_decodes (env : Env) (args : List Bytes) (rest : Bytes) (hd : 2 ≤ env.depth)
+    (hs : Small (Conn.encCmd args ++ rest)) :
+    (parse1 env (Conn.encCmd args ++ rest)).out = .ok (.array (args.map Val.bulk)) (Conn.encCmd args).length :=
+  Conn.parse1_frame env args rest hd hs
+
+example : Conn.encCmd [[71, 69, 84], [107]] = getK := by decide
+example : (parse1 env0 (Conn.encCmd [[83, 69, 84], [13, 10, 0, 255], []])).out =
+      .ok (.array [.bulk [83, 69, 84], .bulk [13, 10, 0, 255], .bulk []]) 29 := rfl
 
 /-- `encode_error_into(msg)` (protocol errors, command-parse errors) is ONE error frame that decodes
     to the error text `errText msg` as written on the wire -/
